@@ -65,6 +65,8 @@ def iter_source(it):
                 tb = table_of(recv)
                 if tb is not None:
                     return ("table", tb, m, adaptors)
+                if m in ("into_keys", "into_values", "into_iter") and recv[0] != "ref":
+                    return ("map", recv, m, adaptors)     # consumes the container by value
                 return ("map", mk_deref(recv), m, adaptors)
             if d == "core::iter::IntoIterator::into_iter" and e[3]:
                 a = e[3][0]
